@@ -179,7 +179,14 @@ def run(tier):
                evaluations=nn, exhaustive=True, samples=[{'templates': 'ckpt-setup-in-teardown, ckpt-setup'}])
   fams = families(tier)
   step = common.NCPU * 4
+  import time as _time  # pylint: disable=g-import-not-at-top
+  t_begin = _time.time()
+  budget = common.thorough_budget(tier, 1800.0)
+  skipped = []
   for fi, fam in enumerate(fams):
+    if budget is not None and _time.time() - t_begin > budget:
+      skipped.append(fam[0])       # (thorough tier: no new family is started once the wall-clock budget is used up)
+      continue
     items = [(tier, fi, s, step) for s in range(step)]
     res = common.pmap(_work, common.rotate(items), chunksize=1)
     n = sum(r[0] for r in res)
@@ -200,6 +207,11 @@ def run(tier):
       'behaviour alphabets per family are listed in vf/harness/c02.py; the "unbounded seeded sampling" part of the '
       'quantifier is outside this technique family and is not done',
   ]
+  if skipped:
+    rep.assumptions.append('families not started because the wall-clock budget of this run (%.0f s) was used up: %s'
+                           % (budget, ', '.join(skipped)))
+    rep.add_part('families skipped (budget)', states=0, transitions=0, traces_validated_against_impl=0, evaluations=0,
+                 exhaustive=False, samples=[{'skipped': skipped}])
   return rep.finish(rule='states = programs executed on the real executor and compared with the reference interpreter; '
                          'distinct_nontrivial = distinct (outcome, #records, #calls) observations')
 
